@@ -19,7 +19,7 @@ ASSUMPTIONS = ["models/membank.py + the writeEnableState rule of 102 9.10 (READ 
                "'after any read' is judged for reads that return; after a read that raises the state is only recorded"]
 EXHAUSTIVE = {"quick": False, "thorough": False}
 REQUIRED_ANCHORS = {"all": ["single_reads", "not_implemented_expected", "read_all_runs", "read_all_latched",
-                            "faults_injected", "post_state_checked"]}
+                            "faults_injected", "post_state_checked", "interleaved_pairs"]}
 SHARD_TIMEOUT = {"quick": 600, "thorough": 3000}
 
 BANKS = ["0", "0L", "1", "202", "203", "204", "205", "206", "207"]
@@ -32,6 +32,7 @@ def plan(tier, seed):
         for rep in range(reps):
             sh.append({"kind": "single", "bank": b, "rep": rep, "images": 24 if tier == "quick" else 48})
             sh.append({"kind": "all", "bank": b, "rep": rep, "images": 32 if tier == "quick" else 96})
+    sh.append({"kind": "interleaved", "n": 200 if tier == "quick" else 4000})
     return sh
 
 
@@ -399,6 +400,30 @@ def run_all(desc, tier, seed, res):
     res.sample({"bank": bankkey, "read_all_images": desc["images"], "values_in_bank": len(values)})
 
 
+def run_interleaved(desc, seed, res):
+    from props import pairs
+    from models.bus import Bus
+    _mods()
+    allv = []
+    for bk in BANKS:
+        bank_obj, values = value_classes(bk)
+        allv += [(bk, bank_obj, n, c, row) for (n, c, row) in values]
+
+    def mk_read(rr):
+        bk, bank_obj, name, cls, row = rr.choice(allv)
+        img = make_image(rr, bk, rr.choice(["random", "text", "random", "ones"]))
+        unit, other, bank, ob, addr = make_unit(rr, bk, img, L.BANKS[bk][0], [], rr.choice(["gear", "device", "int"]))
+        return Bus([unit, other], bound=800), cls.read(addr), lambda: (list(bank.image), bank.snapshot is not None)
+
+    def mk_all(rr):
+        bk = rr.choice(BANKS)
+        bank_obj, values = value_classes(bk)
+        img = make_image(rr, bk, rr.choice(["random", "text", "addr"]))
+        unit, other, bank, ob, addr = make_unit(rr, bk, img, L.BANKS[bk][0], [], rr.choice(["gear", "device", "int"]))
+        return Bus([unit, other], bound=2000), bank_obj.read_all(addr), lambda: (list(bank.image), bank.snapshot is not None)
+    pairs.differential(res, "C09", rng(seed, "C09", "interleaved"), {"read": mk_read, "read_all": mk_all}, desc["n"])
+
+
 def run_shard(desc, tier, seed):
     res = Result()
     if "replay" in desc:
@@ -411,6 +436,8 @@ def run_shard(desc, tier, seed):
         return res
     if desc["kind"] == "single":
         run_single(desc, tier, seed, res)
+    elif desc["kind"] == "interleaved":
+        run_interleaved(desc, seed, res)
     else:
         run_all(desc, tier, seed, res)
     return res
